@@ -21,7 +21,7 @@ RULE = ('families: (A) every transfer kind under small-integer settings (1..2 ex
         'success, failure, cancelled and cancelled-before-start outcomes; (E) stress: line-level yield injection with a 5 us '
         'switch interval.  Verdict per run: result(), cancel() and shutdown() returned before the /proc-based quiescence '
         'detector found every thread asleep with the event counter frozen and nothing parked by the harness (= deadlock, a '
-        'logical verdict). non-trivial = the run finished or deadlocked with all obligations tracked; distinct = (shape, '
+        'logical verdict). families (I) executor / subscriber flavours (NonThreadedExecutor, no subscribers, duck-typed partial subscribers) and (J) failures whose cleanup fails too (part + abort, write + temp removal); non-trivial = the run finished or deadlocked with all obligations tracked; distinct = (shape, '
         'interleaving signature)')
 ASSUMPTIONS = [
     'no scheduler owns CPython thread switching: schedules are randomized (delays, line-level yields, switch interval) and '
